@@ -61,9 +61,13 @@ func yieldDispatch(point string, obj interface{}) {
 		raceYield(point)
 		return
 	}
-	if f, ok := yieldTable.Load(obj); ok {
-		f.(func(string))(point)
+	if len(point) > 4 && point[:4] == "buf." {
+		if f, ok := yieldTable.Load(obj); ok {
+			f.(func(string))(point)
+		}
+		return
 	}
+	yieldDispatchSvc(point)
 }
 
 var raceYieldOn bool // set before the workload starts, cleared after it ended
